@@ -62,12 +62,17 @@ NAMES = list(G.HELPERS)
 
 
 # ---------------------------------------------------------------------------------- plan
+_WEIGHT = {"crc": 2.0, "fold": 2.0, "count_set_bits": 0.5, "count_clear_bits": 0.5, "cond": 0.5, "one_hot": 0.6}
+
+
 def plan(tier):
-    if tier == "quick":
-        shards = [{"kind": "hyp", "name": f"mix{i}", "examples": 45, "part": i, "parts": 14} for i in range(14)]
-    else:
-        shards = [{"kind": "enum", "name": f"all{i}", "part": i, "parts": 48} for i in range(48)]
-        shards += [{"kind": "hyp", "name": f"mix{i}", "examples": 400, "part": i, "parts": 14} for i in range(14)]
+    # one Hypothesis shard per helper: every helper gets its share of the budget (a single
+    # mixed strategy starves some helpers - sampled_from is far from uniform over 37 names)
+    per = 17 if tier == "quick" else 150
+    shards = [{"kind": "hyp", "name": f"h_{n}", "examples": max(6, int(per * _WEIGHT.get(n, 1.0))), "helper": n}
+              for n in NAMES]
+    if tier != "quick":
+        shards = [{"kind": "enum", "name": f"all{i}", "part": i, "parts": 48} for i in range(48)] + shards
     return shards
 
 
@@ -91,8 +96,7 @@ def _case(draw, names):
 
 
 def strategy(shard):
-    # every shard covers all helpers (Hypothesis picks), weights flattened by listing names once
-    return _case(NAMES)
+    return _case([shard["helper"]])
 
 
 def enumerate(shard):
